@@ -106,7 +106,7 @@ for k, v in notes["sensitivity"].items():
     out.append(wrap("%s: %s" % (k, v), "* ").replace("\n* ", "\n  "))
 # summary over all rounds
 rows = []
-for rdir in ("seeded", "seeded2", "seeded3", "seeded4", "seeded5", "seeded6"):
+for rdir in ("seeded", "seeded2", "seeded3", "seeded4", "seeded5", "seeded6", "seeded7"):
     pr = os.path.join(V, rdir, "results.json")
     if not os.path.exists(pr):
         continue
@@ -159,7 +159,9 @@ ROUNDS = [("seeded2", "6.3 Second round of seeded changes",
           ("seeded5", "6.6 Fifth round of seeded changes",
            "A fifth set of fresh sub-agents, told the summaries of the four earlier changes for their property."),
           ("seeded6", "6.6b Sixth round of seeded changes",
-           "A sixth set of fresh sub-agents, told the summaries of the five earlier changes for their property.")]
+           "A sixth set of fresh sub-agents, told the summaries of the five earlier changes for their property."),
+          ("seeded7", "6.6c Seventh round of seeded changes",
+           "A seventh set of fresh sub-agents, told the summaries of the six earlier changes for their property.")]
 for rdir, title, intro in ROUNDS:
     p2 = os.path.join(V, rdir, "results.json")
     if not os.path.exists(p2):
